@@ -266,10 +266,12 @@ def build_ro(b, kind):
     first use of the rule (ro front end only: the dro front end refuses / mishandles that order, a C09 finding)."""
     p = b.p
     late_w = b.has('R2') in ('v', 'vc') and not b.dro_fe
-    specs = [('x', 'dvar', 2), ('y', 'ldr', 2), ('z', 'rvar', 2)] + ([] if late_w else [('w', 'rvar', 1)])
+    specs = [('x', 'dvar', 2), ('y', 'ldr', 2), ('u', 'ldr', ()), ('z', 'rvar', 2)] + \
+        ([] if late_w else [('w', 'rvar', 1)])
     v = b.declare(specs)
-    x, y, z = v['x'], v['y'], v['z']
+    x, y, u, z = v['x'], v['y'], v['u'], v['z']
     y.adapt(z)
+    u.adapt(z)
     w = b.m.rvar(1) if late_w else v['w']
 
     def zs_():
@@ -293,12 +295,13 @@ def build_ro(b, kind):
     b.collect([b.geq(y[1], 0.5 * z[0] - 1.0 * z[1] + 0.125 * w.sum())])
     b.collect([b.geq(y[1], -0.25 * z[0] - 0.75)])
     b.collect([b.geq(x[0], y[1] - 0.5 * z[0] + 1.0 * z[1] - 0.25)])     # pays only if row 1 follows its own target
+    b.collect(b.eq(u - 0.5 * x[0], 0.75))                               # equality, adaptive decision, constant != 0
     if b.has('R6'):
         e2 = 0.5 * x[0] * z[0] + 0.5 * x[1] * z[1] + 2 * x[0] - x[1] + 0.25 * w[0]
     else:
         e2 = (0.5 * x * z).sum() + 2 * x[0] - x[1] + 0.25 * w.sum()
     b.collect([b.geq(e2, -1.0)])
-    obj = p['c'][0] * x[0] - 0.5 * x[1] + y[0] + 0.5 * y[1] + 0.5 * z[0] + 0.25 * w.sum()
+    obj = p['c'][0] * x[0] - 0.5 * x[1] + y[0] + 0.5 * y[1] + 0.75 * u + 0.5 * z[0] + 0.25 * w.sum()
     if b.dro_fe:
         b.finish(obj, fset)
     else:
@@ -306,7 +309,11 @@ def build_ro(b, kind):
 
 
 ZB = {'zbox': (np.array([-1.0, 0.0, -0.75]), np.array([0.0, 1.5, 1.25])),      # zero upper | zero lower | free sign
-      'zmir': (np.array([0.0, -1.25, -0.5]), np.array([1.0, 0.0, 0.0]))}       # zero lower | zero upper | zero upper
+      'zmir': (np.array([0.0, -1.25, -0.5]), np.array([1.0, 0.5, 0.0]))}       # zero lower | free sign | zero upper
+
+
+MZ = np.array([[1.0, -0.5, 0.5], [-0.5, 1.0, 0.25]])
+QZ = np.array([0.25, 0.5])
 
 
 def zbset(b, z, zu, kind):
@@ -327,7 +334,7 @@ def build_roz(b, kind):
     if b.dro_fe:
         fset = b.m.ambiguity()
         fset.suppset(*b.coll(zs))
-    b.collect(b.box(x, np.zeros(3), np.array([2.0, 2.0, 2.0])))
+    b.collect(b.box(x, np.zeros(3), np.array([4.0, 4.0, 4.0])))
     dpos = np.array([1.0, 1.0, 0.5]) * (p['d'][0])
     if b.has('R6'):
         up = dpos[0] * z[0] + dpos[1] * z[1] + dpos[2] * z[2] + 0.75 * zu[0]
@@ -335,6 +342,14 @@ def build_roz(b, kind):
         up = dpos @ z + 0.75 * zu.sum()
     b.collect([robust(b, b.leq(up + 0.5, x.sum()), zbset(b, z, zu, kind), fset)])
     b.collect([b.leq(x[0] - x[1], 0.75)])
+    # ARRAY-valued robust constraints (2 rows; own set and default set): array form versus one constraint per row
+    if b.has('R6'):
+        for i in range(2):
+            b.collect([robust(b, b.leq(MZ[i] @ z + QZ[i], x[i]), zbset(b, z, zu, kind), fset)])
+            b.collect([b.leq(MZ[1 - i] @ z * 0.5 + QZ[i], x[i + 1])])
+    else:
+        b.collect([robust(b, b.leq(MZ @ z + QZ, x[0:2]), zbset(b, z, zu, kind), fset)])
+        b.collect([b.leq(MZ[::-1] @ z * 0.5 + QZ, x[1:3])])
     c = p['c']
     if b.has('R6'):
         obj = (c[0] - z[0]) * x[0] + (c[1] - z[1]) * x[1] + (c[2] - z[2]) * x[2] + 0.5 * zu[0]
@@ -349,14 +364,16 @@ def build_roz(b, kind):
 def build_dro(b):
     p = b.p
     rso = b.rso
-    v = b.declare([('x', 'dvar', 2), ('y', 'dvar', ()), ('z', 'rvar', 2)])
-    x, y, z = v['x'], v['y'], v['z']
+    v = b.declare([('x', 'dvar', 2), ('y', 'dvar', ()), ('u', 'dvar', 2), ('z', 'rvar', 2)])
+    x, y, u, z = v['x'], v['y'], v['u'], v['z']
     y.adapt(z)
     y.adapt(1)
+    u.adapt(z)
     m = b.m
     f = m.ambiguity()
     f[0].suppset(*b.coll(zset(b, z, 'norm')))
-    f[1].suppset(*b.coll(zset(b, z, 'box')))
+    # scenario 1: z[0] has an exactly-zero lower bound, z[1] a two-sided non-zero box (mixed dual senses)
+    f[1].suppset(*b.coll(b.box(z, np.array([0.0, -1.0]), np.array([1.0, 0.75]))))
     ez = rso.E(z)
     f.exptset(*b.coll([b.leq(ez, np.array([0.25, 0.5])), b.geq(ez, np.array([-0.25, -0.125]))]))
     f.probset(b.leq(m.p, np.array([0.75, 0.625])))
@@ -370,7 +387,17 @@ def build_dro(b):
     b.collect([b.geq(y, e1)])
     b.collect([b.geq(y, 0.5 * z[1] + 0.25)])
     b.collect([b.geq(rso.E(x[1] + 0.5 * z[1]), 0.75)])
-    obj = rso.E(p['c'][0] * x[0] - 0.5 * x[1] + 2 * y + 0.5 * z[0])
+    # equalities on adaptive decisions with non-zero constants (scalar rows and a z-term)
+    b.collect(b.eq(u[0] - 0.5 * x[0], 0.75))
+    b.collect(b.eq(u[1] - 0.25 * x[1] - 0.5 * z[0] + 0.25 * z[1], 1.25))
+    # array-valued robust constraint (2 rows) under the default ambiguity set: array form versus loop
+    MD = np.array([[1.0, -0.5], [-0.75, 0.5]])
+    if b.has('R6'):
+        for i in range(2):
+            b.collect([b.leq(MD[i] @ z * 0.25 + 0.125, x[i])])
+    else:
+        b.collect([b.leq(MD @ z * 0.25 + 0.125, x)])
+    obj = rso.E(p['c'][0] * x[0] - 0.5 * x[1] + 2 * y + 0.75 * u[0] + 0.5 * u[1] + 0.5 * z[0])
     b.finish(obj, f)
 
 
